@@ -36,7 +36,30 @@ def seeded(ctx, rng, n):
                 if abs(complex(x, y)) < lead_min:
                     out[-1] = [fp(rng.choice([-1, 1]) * rng.uniform(0.1, 4.0)), fp(0.0 if not cx else rng.uniform(-1, 1))]
             return out
-        cases.append({"cx": cx, "a": norm(a), "d": norm(d, 0.1), "ta": fp(1e-10), "exact": False,
+        # the zero tolerance: the default, a zero tolerance (accepted by set_tolerance; exact zeros only), a tight and a loose one
+        ta = rng.choice([1e-10, 1e-10, 0.0, 0.0, 1e-14, 1e-6])
+        cases.append({"cx": cx, "a": norm(a), "d": norm(d, 0.1), "ta": fp(ta), "exact": False,
+                      "q0": [c11.cz(0.0)], "r0": [c11.cz(0.0)]})
+    # coefficients between a tight zero tolerance and the default one (1e-10): what counts as negligible is the
+    # dividend's own tolerance - a remainder whose leading coefficient is 3e-11 keeps it when the tolerance is 1e-14 or 0
+    for _ in range(max(20, n // 8)):
+        cx = rng.random() < 0.4
+        def co(scale=1.0):
+            return complex(rng.uniform(-2, 2), rng.uniform(-2, 2) if cx else 0.0) * scale
+        dd = rng.randint(2, 5)
+        d = [co() for _ in range(dd)] + [complex(rng.choice([-1, 1]) * rng.uniform(0.5, 2.0), 0.0)]
+        q = [co() for _ in range(rng.randint(1, 5))]
+        r = [co() for _ in range(dd - 1)] + [co(rng.uniform(1e-11, 5e-11) / 2.0) + complex(2e-11, 0.0)]
+        a = [0j] * (len(q) + len(d) - 1)
+        for i, qi in enumerate(q):
+            for j, dj in enumerate(d):
+                a[i + j] += qi * dj
+        for i, ri in enumerate(r):
+            a[i] += ri
+        if rng.random() < 0.3:
+            a.append(complex(rng.uniform(1e-11, 5e-11), 0.0))        # ... and a dividend whose own leading coefficient is that small
+        cz = lambda z: c11.cz(z.real, z.imag)
+        cases.append({"cx": cx, "a": [cz(z) for z in a], "d": [cz(z) for z in d], "ta": fp(rng.choice([1e-14, 0.0])), "exact": False,
                       "q0": [c11.cz(0.0)], "r0": [c11.cz(0.0)]})
     return cases
 
@@ -50,6 +73,17 @@ def judge(ctx, cases):
         c["id"] = k + 1
     rows = fncommon.observe(ctx, "poly-div", cases, "div", nproc=4)
     viols = fncommon.validate(ctx, rows, "Val_C12", "div", nshards=8)
+    # design level (drift, not a violation): every real call replayed through module PolyDivide over doubles - the
+    # quotient and remainder of the long-division loop, bit for bit
+    drows = [{k: r[k] for k in ("id", "cx", "a", "d", "ta", "st", "q", "r")} for r in rows]
+    ndrift = len(ctx.drift)
+    fncommon.validate(ctx, drows, "Trace_PolyDivide", "divdl", nshards=8)
+    ctx.traces -= len(drows)
+    st = [x for x in ctx.notes.get("_stat", []) if x and x[0] == "divide_runs_explained"]
+    ctx.notes["_stat"] = [x for x in ctx.notes.get("_stat", []) if not (x and x[0] == "divide_runs_explained")]
+    for key, v in (("validated_against_design", len(drows)), ("explained_bit_for_bit", sum(x[1] for x in st)),
+                   ("drifted", len(ctx.drift) - ndrift)):
+        ctx.notes["divide_runs_%s" % key] = ctx.notes.get("divide_runs_%s" % key, 0) + v
     for c, row in zip(cases, rows):
         ctx.count_case(brief(c), len(c["d"]) >= 2 and len(row.get("q", [])) >= 1 and row.get("st") == "ok" and
                        any(z != [[0, 0], [0, 0]] for z in row["q"]))
@@ -63,8 +97,18 @@ def judge(ctx, cases):
 
 def run(ctx):
     rng = random.Random(ctx.seed)
+    # E1: the design model of the long-division loop over exact rationals - every small dividend / divisor / tolerance
+    # (zero among them): the Euclidean identity up to the tolerance after every pass, the degree of the remainder, the
+    # bound on the number of passes, termination
+    vlib.e1(ctx, "MC_PolyDivide", "PolyDivide", ["Begin", "Pass", "Exit"], cfg="MC_PolyDivide.cfg", workers=4, timeout=1800)
     cases = fncommon.gen_tlc(ctx, "Gen_C12", "c12")
     n = len(cases)
+    # every third constructed case (exact integer / Gaussian-integer data, the zero-polynomial divisors among them) once
+    # more with a zero tolerance: the identities are exact there, and "negligible" then means exactly zero
+    zero = c11.cz(0.0)
+    zt = [dict(c, ta=fp(0.0)) for k, c in enumerate(cases) if k % 3 == 0 or (len(c["d"]) == 1 and c["d"][0] == zero)]
+    cases += zt
+    n += len(zt)
     cases += seeded(ctx, rng, 300 if ctx.tier == "quick" else 3000)
     judge(ctx, cases)
     ctx.notes["exactly_constructed_cases"] = n
